@@ -128,7 +128,8 @@ HexahedralMeshTopologyKernel::add_cell(std::vector<HalfFaceHandle> _halffaces, b
 #ifndef NDEBUG
             std::cerr << "The current halfface is invalid!" << std::endl;
 #endif
-            continue;
+            // The given halffaces do not form a hexahedron
+            return TopologyKernel::InvalidCellHandle;
         }
         ordered_halffaces[orderTop[idx]] = ahfh;
         ++idx;
@@ -138,9 +139,15 @@ HexahedralMeshTopologyKernel::add_cell(std::vector<HalfFaceHandle> _halffaces, b
     HalfFaceHandle cur_hf = ordered_halffaces[0];
     HalfEdgeHandle cur_he = *(TopologyKernel::halfface(cur_hf).halfedges().begin());
     cur_hf = get_adjacent_halfface(cur_hf, cur_he, _halffaces);
+    if(cur_hf == TopologyKernel::InvalidHalfFaceHandle) {
+        return TopologyKernel::InvalidCellHandle;
+    }
     cur_he = TopologyKernel::opposite_halfedge_handle(cur_he);
     cur_he = TopologyKernel::next_halfedge_in_halfface(cur_he, cur_hf);
     cur_he = TopologyKernel::next_halfedge_in_halfface(cur_he, cur_hf);
+    if(cur_he == TopologyKernel::InvalidHalfEdgeHandle) {
+        return TopologyKernel::InvalidCellHandle;
+    }
     cur_hf = get_adjacent_halfface(cur_hf, cur_he, _halffaces);
 
     if(cur_hf != TopologyKernel::InvalidHalfFaceHandle) {
